@@ -90,6 +90,11 @@ CLAIMED = {
  'C18': C('who-may-call census incl. fn-item references, name provenance, precedence by edge-restricted reachability, single-conversion join',
    'Decides: std::env is used only at the listed sites with names from the declared env list; the flag/argument consumers consult the command line on every path and the environment only on '
    'the absent edge; env and command-line values share the one parse_os_str conversion; both-absent exits build Missing/NoEnv which are catchable; every declared variable is consulted; a repetition threads one progress counter so the extra evaluation that falls back to the variable is not an occurrence. Known finding: that extra evaluation still converts the variable, so an INVALID value fails a run whose line supplied values. Does NOT decide wrapper behaviour (C06).', 'DESIGN.md sections 0, 5 and Appendix E, C18'),
+ 'C19': C('symbolic scope tracking at every evaluation of the group parser (abstract walk over all loop-bounded paths), control dependence of the hole trim, shape rules for the run-of-present-items window, edge-restricted reachability of the success return, forward-scan rules',
+   'Decides structural necessary conditions of the anchored mechanism only: attempts run on clones, never on the state of the caller, and both success and failure give the caller its scope back; the scope handed to the group parser is the single-item probe window, '
+   '`start..end of scope` trimmed to the run of present items exactly when the window has holes, or the narrower window proposed by adjacent_scope - nothing else; adjacently_available_from stops at the first consumed item; an attempt is accepted only when '
+   'adjacent_scope has no narrower window to propose (otherwise it is re-evaluated on it), also for adjacent commands; adjacent_scope scans both ledgers forward from the scope start; start positions increase and the first successful one returns (blocks in command-line order); '
+   '`.adjacent()` turns failfast on. Does NOT decide which vectors are accepted for a shape: that is index arithmetic over run-time ledgers, outside static reach.', 'DESIGN.md sections 0, 5 and Appendix E, C19'),
  'C20': C('differential MIR between feature configurations (span-aligned statement multisets) + abstract evaluation under the assumption "completion is off" + inertness summaries of the completion family',
    'Decides: every analysed configuration builds; batteries/docgen(/derive) only add items (listed carried-data sites); colour features differ only at print-only sites and at render_console push sites that '
    'correspond one-to-one to Color::push_str, whose Monochrome arm is a verbatim push_str; every autocomplete-only statement that is live with completion off is a family call, a pure call or a write to an '
@@ -98,10 +103,6 @@ CLAIMED = {
 }
 
 NA_REASON = {
- 'C19': ('contiguity of adjacent blocks is index arithmetic over the run-time consumption ledger (adjacent_scope, '
-         'adjacently_available_from, the start-position scan); its only shape-of-code clauses (inner parser on a narrowed clone, '
-         'scope restored on success) are decided under C05; no other structural necessary condition exists, so static analysis '
-         'gives no verdict on this property'),
 }
 
 checks = []
